@@ -444,10 +444,12 @@ RecvPublish(s, p) ==
       q == p.qos > 0
   IN
   IF v5 /\ q /\ s.recvMax > 0 /\ Cardinality(s.pubRecv) >= s.recvMax THEN HandleErr50(s, "ReceiveMaximumExceeded")
+  \* the code counts the PUBLISH against the Receive Maximum before it validates the alias (the connection is closed
+  \* right after, so nothing observable depends on it; modelled as the code does it to keep lock-step conformance exact)
   ELSE IF v5 /\ p.topic = "" /\ ~(p.alias # 0 /\ s.taRecv.max > 0 /\ p.alias <= s.taRecv.max /\ TrGet(s.taRecv, p.alias) # "")
-    THEN HandleErr50(s, "TopicAliasInvalid")
+    THEN HandleErr50(IF q THEN [s EXCEPT !.pubRecv = @ \cup {p.pid}] ELSE s, "TopicAliasInvalid")
   ELSE IF v5 /\ p.topic # "" /\ p.alias # 0 /\ ~(s.taRecv.max > 0 /\ p.alias <= s.taRecv.max)
-    THEN HandleErr50(s, "TopicAliasInvalid")
+    THEN HandleErr50(IF q THEN [s EXCEPT !.pubRecv = @ \cup {p.pid}] ELSE s, "TopicAliasInvalid")
   ELSE
   \* the notified packet carries the extracted topic name (and reports its size with it)
   LET pk == IF v5 /\ p.topic = "" THEN [p EXCEPT !.topic = TrGet(s.taRecv, p.alias), !.size = @ + StrLen(TrGet(s.taRecv, p.alias))] ELSE p
